@@ -8,11 +8,16 @@ against, and the member sort of `mustReorderObjectsFromDecoder`.
   cmp valid <hex x>              → 0 | 1                          Model.Utf8.valid
   cmp sort <n> <hex name_1> … <hex name_n>   → the permutation: indices into the input, in output order, joined by ','
   cmp msort <n> <hex name_1> <hex buf_1> …    → same for full members (name, raw buffer), via Model.Reorder.reorder
+  cmp canon <hex text> [<float64 bits, hex>:<shortest digits>:<n>]…   → `ok <hex>` | `err`     Canon.canonicalize
+        The float parameter: `parse` is C10's exact specification of strconv.ParseFloat (`parseFloatExact`);
+        `shortest` is the table in the request (strconv's shortest digits d₁…d_k and the decimal point position n,
+        value 0.d₁…d_k × 10^n, keyed by the bits of the magnitude), zero being `([], 0)`.
 -/
 import JsonV.Oracle.Util
 import JsonV.Model.Compare
 import JsonV.Model.Reorder
 import JsonV.Spec.Utf16Order
+import JsonV.Model.Canon
 
 namespace JsonV.Oracle.Cmp
 open JsonV JsonV.Oracle JsonV.Model JsonV.Spec
@@ -41,6 +46,26 @@ def memberPerm (ms : List Reorder.Member) : List Nat :=
                 else tagged.mergeSort (fun a b => Reorder.memberLe a.1 b.1)
   sorted.map (·.2)
 
+/-- one table entry `bits:digits:n` -/
+def parseDigitsEntry (s : String) : Option (Nat × List Nat × Int) :=
+  match s.splitOn ":" with
+  | [b, d, n] =>
+    match natOfHex b, n.toInt? with
+    | some bits, some n =>
+      let ds := d.toList.map (fun c => c.toNat - 48)
+      if d.toList.all (fun c => '0' ≤ c ∧ c ≤ '9') then some (bits, ds, n) else none
+    | _, _ => none
+  | _ => none
+
+def tableCodec (tbl : List (Nat × List Nat × Int)) : Canon.FloatCodec where
+  parse := Number.parseFloatExact Number.fmt64
+  shortest := fun f =>
+    if f.isZero then ([], 0)
+    else
+      match tbl.find? (fun e => e.1 == ({ f with neg := false } : Number.Fl).toBits Number.fmt64) with
+      | some e => e.2
+      | none => ([99], 0)   -- missing table entry: shows up as a garbage literal
+
 def handle (op : String) (args : List String) : String :=
   match op, args with
   | "c16", [a, b] =>
@@ -59,6 +84,13 @@ def handle (op : String) (args : List String) : String :=
     match bytesOfHex a with
     | some x => boolStr (Utf8.valid x)
     | none => badArgs
+  | "canon", h :: tbl =>
+    match bytesOfHex h, allSome (tbl.map parseDigitsEntry) with
+    | some b, some t =>
+      match Canon.canonicalize (tableCodec t) b with
+      | some out => "ok " ++ hexOfBytes out
+      | none => "err"
+    | _, _ => badArgs
   | "sort", n :: rest =>
     match n.toNat?, allSome (rest.map bytesOfHex) with
     | some n, some names => if names.length = n then joinNats toString (Reorder.sortPerm names) else badArgs
